@@ -13,6 +13,32 @@ import (
 
 func init() { register("C02", "exploration", c02) }
 
+// recursiveEntries: inputs for a grammar with rule cycles: derivations with a bounded number of free choices (they
+// terminate, and nest a few levels deep), their mutations, and the usual boundary strings.
+func recursiveEntries(r *rand.Rand, g *gram.Grammar, n int) []entry {
+	alpha := append([]rune("abcdefgz"), g.Runes()...)
+	st := gram.NewSteer(g)
+	seen := map[string]bool{}
+	var es []entry
+	add := func(in []rune) {
+		if len(in) <= 80 && !seen[string(in)] {
+			seen[string(in)] = true
+			es = append(es, entry{-1, string(in)})
+		}
+	}
+	for i := 0; i < n*2 && len(es) < n; i++ {
+		in := st.DeriveFree(r, g.Rules[0].Name, 1+i%9, alpha)
+		add(in)
+		if i%3 == 0 {
+			add(gram.Mutate(r, in, alpha))
+		}
+	}
+	for _, in := range gram.Inputs(r, g, g.Rules[0].Name, 6, alpha) {
+		add([]rune(in))
+	}
+	return es
+}
+
 func c02(c *ctx) {
 	n := tierN(c, 220, 4000)
 	r := rand.New(rand.NewSource(c.env.Seed))
@@ -32,6 +58,14 @@ func c02(c *ctx) {
 		}
 		cs := &gcase{id: i, g: g}
 		alpha := append([]rune("abcdefgz"), g.Runes()...)
+		if i%8 == 2 {
+			// rule cycles: alternatives that begin with a rule still being analysed further up the call chain
+			g = gram.Recursive(r)
+			cs.g = g
+			cs.entries = recursiveEntries(r, g, 26)
+			cases = append(cases, cs)
+			continue
+		}
 		cs.entries = entriesFor(r, g, 22, false, 0, alpha)
 		cases = append(cases, cs)
 	}
